@@ -19,6 +19,18 @@ func generate(tier string, r *rng.R) []fw.Case {
 			cs = append(cs, awaitGroupCase(r.Fork()))
 		case i%10 == 0:
 			cs = append(cs, envh.GenTeardownCase(r.Fork()))
+		case i%11 == 2:
+			// a call whose result waits longer than its declared timeout (or for ever): see late.go
+			cs = append(cs, outlivedTimeoutCase(r.Fork()))
+		case i%7 == 3:
+			// the weights as WRITTEN in the template (padded, signed, bare): see written.go
+			cs = append(cs, writtenWeightsCase(r.Fork()))
+		case i%7 == 6:
+			// calls awaited in the OTHER pass of their trigger moment, next to hooks triggered at the await weight
+			cs = append(cs, envh.GenCrossPassCase(r.Fork()))
+		case i%7 == 5:
+			f := r.Fork()
+			cs = append(cs, withWrittenWeights(envh.GenCase(f, profile), f))
 		default:
 			cs = append(cs, envh.GenCase(r.Fork(), profile))
 		}
